@@ -13,17 +13,8 @@ namespace Noulith.C12
 
 theorem predEval_no_panic (p : Nat) (v : Val) : predEval p v ≠ .panic := by
   unfold predEval
-  split
-  · split
-    · split <;> (try split) <;> simp
-    · simp
-  · split <;> simp
-  · simp
-  · simp
-  · simp
-  · simp
-  · simp
-  · simp
+  repeat' split
+  all_goals simp
 
 theorem isType_no_panic (T : Ty) (v : Val) : isType T v ≠ .panic := by
   cases T <;> cases v <;> simp [isType, predEval_no_panic]
@@ -31,14 +22,37 @@ theorem isType_no_panic (T : Ty) (v : Val) : isType T v ≠ .panic := by
 theorem Out.map_ne_panic {α β} (f : α → β) (x : Out α) (h : x ≠ .panic) : x.map f ≠ .panic := by
   cases x <;> simp_all [Out.map]
 
-theorem setIndex_no_panic (lhs : Val) (ixs : List Val) (value : Option Val) :
-    setIndex lhs ixs value ≠ .panic := by
+theorem mapRange_no_panic (f : Val → Out Val) (hf : ∀ x, f x ≠ .panic) :
+    ∀ (xs : List Val) (i lo hi : Nat), mapRange f xs i lo hi ≠ .panic := by
+  intro xs
+  induction xs with
+  | nil => intro i lo hi; simp [mapRange]
+  | cons x xs ih =>
+    intro i lo hi
+    unfold mapRange
+    split
+    · cases hx : f x with
+      | ok y => simp only []; exact Out.map_ne_panic _ _ (ih _ _ _)
+      | throw => simp
+      | panic => exact absurd hx (hf x)
+    · exact Out.map_ne_panic _ _ (ih _ _ _)
+
+theorem setIndex_no_panic (lhs : Val) (ixs : List Ix) (value : Option Val) (every : Bool) :
+    setIndex lhs ixs value every ≠ .panic := by
   induction ixs generalizing lhs with
   | nil => simp [setIndex]
   | cons i rest ih =>
-    unfold setIndex
-    repeat' split
-    all_goals first | exact Out.map_ne_panic _ _ (ih _) | simp
+    cases i with
+    | idx i =>
+      unfold setIndex
+      repeat' split
+      all_goals first | exact Out.map_ne_panic _ _ (ih _) | simp
+    | slice lo hi =>
+      unfold setIndex
+      repeat' split
+      all_goals first
+        | exact Out.map_ne_panic _ _ (mapRange_no_panic _ (fun x => ih x) _ _ _ _)
+        | simp
 
 theorem insert_no_panic (e : Env) (x : Nat) (T : Ty) (v : Val) : (e.insert x T v).2 ≠ .panic := by
   unfold Env.insert
@@ -55,8 +69,8 @@ theorem insertDeclare_no_panic (e : Env) (x : Nat) (T : Ty) (v : Val) :
   · simp
   · next h => exact absurd h (isType_no_panic _ _)
 
-theorem assignRespectingType_no_panic (e : Env) (x : Nat) (ixs : List Val) (v : Val) :
-    (assignRespectingType e x ixs v).2 ≠ .panic := by
+theorem assignRespectingType_no_panic (e : Env) (x : Nat) (ixs : List Ix) (v : Val) (every : Bool := false) :
+    (assignRespectingType e x ixs v every).2 ≠ .panic := by
   unfold assignRespectingType
   split
   · simp
@@ -73,7 +87,7 @@ theorem assignRespectingType_no_panic (e : Env) (x : Nat) (ixs : List Val) (v : 
         · simp
         · next h => exact absurd h (isType_no_panic _ _)
       · simp
-      · next h => exact absurd h (setIndex_no_panic _ _ _)
+      · next h => exact absurd h (setIndex_no_panic _ _ _ _)
 
 /-! ## §3 the arrangement -/
 
